@@ -369,3 +369,81 @@ pub fn run(cfg: &RunCfg) -> i32 {
     }
     check.finish()
 }
+
+/// The command lines with which the real orchestrator binary starts the server executable in
+/// leader mode (single-node cluster) and in follower mode (a scripted peer announces itself as
+/// leader), captured through the stub: `(leader, follower)`, each without the executable name.
+/// The sync port configured for the node is 7000, the peer's address is 127.0.0.1 with sync port 7100.
+/// Used by C12, whose follower and promoted node are started "the way the orchestrator starts them".
+pub fn capture_cmdlines() -> Result<(Vec<String>, Vec<String>), String> {
+    if !orchestrator_binary().exists() {
+        return Err(format!("orchestrator binary {} is missing (run through ./check)", orchestrator_binary().display()));
+    }
+    let base = scratch_dir("cmdlines");
+    let run = |nodes: Vec<Value>, peer: Option<&std::net::UdpSocket>, want: &str| -> Result<Vec<String>, String> {
+        let dir = crate::persist::fresh_dir(&base, want.trim_start_matches('-'));
+        let cfg_path = dir.join("config.yaml");
+        std::fs::write(&cfg_path, json!({"nodes": nodes}).to_string()).map_err(|e| e.to_string())?;
+        let log_path = dir.join("stub.log");
+        std::fs::write(&log_path, "").ok();
+        let data_dir = dir.join("data");
+        std::fs::create_dir_all(&data_dir).ok();
+        let node_port = nodes[0]["raftPort"].as_u64().unwrap_or(0) as u16;
+        let mut cmd = Command::new(orchestrator_binary());
+        cmd.arg("n0")
+            .arg("-c")
+            .arg(&cfg_path)
+            .arg("-t")
+            .arg(TIMEOUT_MS.to_string())
+            .arg("-H")
+            .arg("30")
+            .arg("-w")
+            .arg(verif_root().join("stub/worterbuch-stub.sh"))
+            .arg("--stats-port")
+            .arg(crate::server::free_port().to_string())
+            .arg("--data-dir")
+            .arg(&data_dir)
+            .env("WBVERIF_STUB_LOG", &log_path)
+            .env_remove("RUST_LOG")
+            .stdin(Stdio::null())
+            .stdout(Stdio::null())
+            .stderr(Stdio::null());
+        unsafe {
+            cmd.pre_exec(|| {
+                libc::setpgid(0, 0);
+                libc::prctl(libc::PR_SET_PDEATHSIG, libc::SIGKILL);
+                Ok(())
+            });
+        }
+        let child = cmd.spawn().map_err(|e| format!("the orchestrator binary does not start: {e}"))?;
+        let _orch = Orchestrator { child };
+        let started = Instant::now();
+        while started.elapsed() < Duration::from_secs(20) {
+            if let Some(p) = peer {
+                // the peer keeps announcing itself as leader
+                p.send_to(json!({"heartbeat": {"request": {"nodeId": "p0"}}}).to_string().as_bytes(), ("127.0.0.1", node_port)).ok();
+            }
+            std::thread::sleep(Duration::from_millis(20));
+            let log = std::fs::read_to_string(&log_path).unwrap_or_default();
+            // the first start of the server executable in this scenario, whatever its flags are:
+            // a single node can only lead, a node whose only peer announces itself can only follow
+            if let Some(line) = log.lines().next()
+                && log.ends_with('\n')
+            {
+                let args: Vec<String> = line.split_whitespace().skip(1).map(|s| s.to_owned()).collect();
+                return Ok(args);
+            }
+        }
+        Err(format!("the orchestrator did not start the server executable in the scenario for {want} within 20 s"))
+    };
+    let node_port = free_udp_port();
+    let n0 = json!({"nodeId": "n0", "address": "127.0.0.1", "raftPort": node_port, "syncPort": 7000});
+    let leader = run(vec![n0.clone()], None, "--leader")?;
+    let peer = std::net::UdpSocket::bind("127.0.0.1:0").map_err(|e| e.to_string())?;
+    let peer_port = peer.local_addr().map(|a| a.port()).unwrap_or(0);
+    let node_port = free_udp_port();
+    let n0 = json!({"nodeId": "n0", "address": "127.0.0.1", "raftPort": node_port, "syncPort": 7000});
+    let p0 = json!({"nodeId": "p0", "address": "127.0.0.1", "raftPort": peer_port, "syncPort": 7100});
+    let follower = run(vec![n0, p0], Some(&peer), "--follower")?;
+    Ok((leader, follower))
+}
